@@ -14,7 +14,7 @@ demo() {
   cd $d/out/demo || return 2
   if [ -f ./demo.sh ]; then bash ./demo.sh
   elif [ -f ./run.sh ]; then CARGO_TARGET_DIR=$d/wt/target/demo bash ./run.sh
-  elif grep -q "cargo test" README.md 2>/dev/null && ! grep -q "cargo run" README.md; then touch build.rs 2>/dev/null; CARGO_TARGET_DIR=$d/wt/target/demo cargo test --offline
+  elif [ "$(grep -o -m1 'cargo \(test\|run\)' README.md 2>/dev/null | head -1)" = "cargo test" ]; then touch build.rs 2>/dev/null; CARGO_TARGET_DIR=$d/wt/target/demo cargo test --offline
   else touch build.rs 2>/dev/null; CARGO_TARGET_DIR=$d/wt/target/demo cargo run --offline; fi
 }
 ( demo ) > $d/demo_with.log 2>&1; echo "demo with the patch: rc=$?" >> $d/verify.log
